@@ -8,7 +8,7 @@ import lib  # noqa
 import prog  # noqa
 import progcommon as P  # noqa
 
-MODULES = ["InovesaModel.Props.C14"]
+MODULES = ["InovesaModel.Props.C14", "InovesaModel.Props.TieH5"]
 LEVEL = "proof"
 
 
